@@ -768,6 +768,11 @@ fn header_vec(h: &HeaderMap) -> Vec<(String, Vec<u8>)> {
 /// Calls the service with a built request and drains the response.  Runs on `rt` (paused clock:
 /// virtual time advances only when everything is idle, so timestamps are exact).
 pub fn call_http(rt: &tokio::runtime::Runtime, svc: &S3Service, req: http::Request<s3s::Body>) -> CallOutcome {
+    call_http_lazy(rt, svc, req, 0)
+}
+
+/// like `call_http`, but the consumer sleeps `lazy_ms` (virtual) milliseconds between frames
+pub fn call_http_lazy(rt: &tokio::runtime::Runtime, svc: &S3Service, req: http::Request<s3s::Body>, lazy_ms: u64) -> CallOutcome {
     let fut = async {
         let t0 = tokio::time::Instant::now();
         let res = AssertUnwindSafe(svc.call(req)).catch_unwind().await;
@@ -805,6 +810,9 @@ pub fn call_http(rt: &tokio::runtime::Runtime, svc: &S3Service, req: http::Reque
                         }
                     }
                 },
+            }
+            if lazy_ms > 0 {
+                tokio::time::sleep(std::time::Duration::from_millis(lazy_ms)).await;
             }
             if out.frames.len() > 100_000 {
                 out.body_error = Some("verif: more than 100000 frames".into());
